@@ -174,6 +174,14 @@ def check(repo, rep):
                         cl = p
                 nset += 1
                 inside = mod == 'core' and cl is not None and cl.name == 'AudioRegion' and fn is not None and fn.name == '__post_init__'
+                if not inside and mod == 'core' and cl is not None and cl.name == 'AudioRegion' and fn is not None and fn.name.startswith('_'):
+                    # a private helper of the class that is reachable only from __post_init__
+                    callers = set()
+                    for m2, t2 in repo.trees.items():
+                        for f2 in ast.walk(t2):
+                            if isinstance(f2, ast.FunctionDef) and f2 is not fn and any(isinstance(x, ast.Attribute) and x.attr == fn.name for x in ast.walk(f2)):
+                                callers.add(f2.name)
+                    inside = callers == {'__post_init__'}
                 own = cl is not None and cl.name != 'AudioRegion' and n.args and isinstance(n.args[0], ast.Name) and n.args[0].id == 'self' and False
                 meta = cl is not None and cl.name == '_AudioRegionMetadata'
                 rep.ob('the frozen-dataclass bypass (object.__setattr__) is used only inside AudioRegion.__post_init__', inside or meta, cx.where(mod, n), '%s.%s:setattr' % (cl.name if cl else mod, fn.name if fn else '?'),
@@ -198,7 +206,8 @@ def check(repo, rep):
         if l.outcome != 'return':
             continue
         v = l.value
-        d = v[2][0] if v[0] == 'call' and v[2] else None
+        from ..facts import ctor_fields
+        d = ctor_fields(cx, v).get('data') if v[0] == 'call' else None
         nzero = P.prod(P.call('round', P.prod(P.param('duration'), P.role('sampling_rate'))), P.role('sample_width'), P.role('channels'))
         ok = d is not None and (P.prod(P.const(b'\x00'), nzero)(d) or P.call('bytes', nzero)(d) or P.call('bytearray', nzero)(d))
         rep.ob('make_silence(d) holds round(d * rate) all-zero samples (x width x channels zero bytes)', ok, W(l.node), 'make_silence:data', 'data is %s' % (show(d)[:140] if d else None), sample=dict(op='make_silence', data=show(d)[:120] if d else None))
